@@ -472,6 +472,10 @@ struct Collected {
     outcomes: BTreeSet<String>,
     rules: BTreeMap<String, u64>,
     samples: Vec<Value>,
+    tier: String,
+    /// replay support: keep the mismatches of visit number `capture_at`
+    capture_at: Option<u64>,
+    captured: Option<Vec<Mismatch>>,
 }
 
 fn visit(rig: &mut Rig, prev: &Live, col: &mut Collected, phase: &str) {
@@ -491,6 +495,9 @@ fn visit(rig: &mut Rig, prev: &Live, col: &mut Collected, phase: &str) {
         }
     };
     col.comparisons += stats.comparisons;
+    if col.capture_at == Some(col.visits) {
+        col.captured = Some(mism.clone());
+    }
     for (rule, tty, d) in &stats.rules {
         *col.rules.entry(format!("{rule:?}")).or_default() += 1;
         col.outcomes.insert(format!("{rule:?}/{tty}/{d:?}"));
@@ -510,7 +517,7 @@ fn visit(rig: &mut Rig, prev: &Live, col: &mut Collected, phase: &str) {
                 json!({
                     "system": m.system, "clause": m.clause, "case": case,
                     "message": format!("{} [reached from: {}]", m.message, prev.describe()),
-                    "replay": {"kind": "node", "prev": prev.to_json(), "cfg": live.to_json()},
+                    "replay": {"kind": "node", "prev": prev.to_json(), "cfg": live.to_json(), "visit": col.visits, "tier": col.tier},
                 }),
             )
         });
@@ -620,8 +627,12 @@ fn clap_part(rig: &mut Rig, col: &mut Collected) -> Value {
 }
 
 fn child_walk(quick: bool, no_pty: bool) -> Result<Value, String> {
+    walk(quick, no_pty, None).map(|(v, _)| v)
+}
+
+fn walk(quick: bool, no_pty: bool, capture_at: Option<u64>) -> Result<(Value, Option<Vec<Mismatch>>), String> {
     let mut rig = Rig::new(no_pty)?;
-    let mut col = Collected::default();
+    let mut col = Collected { tier: if quick { "quick".into() } else { "thorough".into() }, capture_at, ..Default::default() };
     let mut parts = vec![];
     let has_pty = rig.has_pty();
     let stdio_values: Vec<usize> = if has_pty { vec![0, 1] } else { vec![1] };
@@ -759,7 +770,8 @@ fn child_walk(quick: bool, no_pty: bool) -> Result<Value, String> {
     fs.sort_by_key(|(s, o, _)| (*s, *o));
     let distinct_findings = fs.len();
     let kept: Vec<Value> = fs.into_iter().take(40).map(|(_, _, v)| v).collect();
-    Ok(json!({
+    let captured = col.captured.take();
+    Ok((json!({
         "findings": kept,
         "distinct_findings": distinct_findings,
         "total_mismatches": col.total_mismatches,
@@ -773,7 +785,7 @@ fn child_walk(quick: bool, no_pty: bool) -> Result<Value, String> {
         "pty": has_pty,
         "graph_nodes": expected_nodes,
         "restored": restored_ok,
-    }))
+    }), captured))
 }
 
 fn child_main(outfile: &str, tier: &str, no_pty: bool) -> ! {
@@ -900,6 +912,19 @@ fn replay(v: &Value) -> Result<(), String> {
             let prev = Live::from_json(&v["prev"]).ok_or("bad prev")?;
             let cfg = Live::from_json(&v["cfg"]).ok_or("bad cfg")?;
             std::io::stdout().flush().ok();
+            let fmt = |m: &[Mismatch]| m.iter().map(|x| format!("{} [{}]: {}", x.system, x.stream, x.message)).collect::<Vec<_>>().join("; ");
+            // The verdict at a node may depend on the whole history of the process (e.g. a cached
+            // decision), so the case is the deterministic walk up to that visit, redone from a fresh
+            // process state (this replay process has not called into the crates yet).
+            if let Some(k) = v["visit"].as_u64() {
+                let (_, captured) = walk(v["tier"].as_str() != Some("thorough"), false, Some(k))?;
+                return match captured {
+                    Some(m) if !m.is_empty() => Err(format!("{} (visit {k} of the walk): {}", cfg.describe(), fmt(&m))),
+                    Some(_) => Ok(()),
+                    None => Err(format!("MACHINERY: the walk has no visit {k}")),
+                };
+            }
+            // payload without a visit number: predecessor, then the node itself
             let mut rig = Rig::new(false)?;
             let r = (|| {
                 if !rig.has_pty() && (prev.stdio == 0 || cfg.stdio == 0) {
@@ -911,7 +936,7 @@ fn replay(v: &Value) -> Result<(), String> {
                 let r = std::panic::catch_unwind(std::panic::AssertUnwindSafe(|| evaluate(&mut rig)));
                 match r {
                     Ok((m, _)) if m.is_empty() => Ok(()),
-                    Ok((m, _)) => Err(m.iter().map(|x| format!("{} [{}]: {}", x.system, x.stream, x.message)).collect::<Vec<_>>().join("; ")),
+                    Ok((m, _)) => Err(fmt(&m)),
                     Err(_) => Err("panic during evaluation".into()),
                 }
             })();
